@@ -27,12 +27,13 @@ type compliantShape struct {
 	AudArray   bool
 	TokenType  string
 	Extra      bool
+	Big        bool // a response body of more than 8 KiB
 	IDLifetime int64
 }
 
 func (sh compliantShape) answer(s *hSim, nonce string) idpAnswer {
 	c := s.w.cfg
-	a := idpAnswer{Kind: "body", TokenType: sh.TokenType, Access: s.uniq("ACCESS-marker"), Extra: sh.Extra}
+	a := idpAnswer{Kind: "body", TokenType: sh.TokenType, Access: s.uniq("ACCESS-marker"), Extra: sh.Extra, Big: sh.Big}
 	switch sh.ExpiresIn {
 	case "zero":
 		a.ExpiresIn = i64(0)
@@ -152,7 +153,7 @@ func runC03(r *Run) {
 	for _, ei := range []string{"absent", "zero", "short", "long"} {
 		for _, rf := range []bool{false, true} {
 			for _, aa := range []bool{false, true} {
-				shapes = append(shapes, compliantShape{ExpiresIn: ei, Refresh: rf, AudArray: aa, TokenType: pick(r.Rng, []string{"Bearer", "bearer", "BEARER", "bEaReR"}), Extra: r.Rng.Intn(2) == 0, IDLifetime: pick(r.Rng, []int64{300, 3600})})
+				shapes = append(shapes, compliantShape{ExpiresIn: ei, Refresh: rf, AudArray: aa, TokenType: pick(r.Rng, []string{"Bearer", "bearer", "BEARER", "bEaReR"}), Extra: r.Rng.Intn(2) == 0, Big: r.Rng.Intn(2) == 0, IDLifetime: pick(r.Rng, []int64{300, 3600})})
 			}
 		}
 	}
